@@ -4,7 +4,7 @@
 #include <tulz/DirectoryVisitor.h>
 #include <tulz/Exception.h>
 #include "vf.h"
-extern "C" { unsigned vf_fs_add(unsigned parent, const char *name, unsigned is_dir); void vf_fs_set(unsigned node, unsigned i, unsigned byte); unsigned vf_fs_cwd(void); unsigned long vf_fs_open_handles(void); }
+extern "C" { unsigned vf_fs_add(unsigned parent, const char *name, unsigned is_dir); void vf_fs_set(unsigned node, unsigned i, unsigned byte); unsigned vf_fs_cwd(void); unsigned long vf_fs_open_handles(void); const char *vf_fs_root(void); }
 using namespace tulz;
 static bool is_sep(char c) { return c == '/' || c == '\\'; }
 static std::string any_string(int len, bool sepfree) {
@@ -46,7 +46,7 @@ extern "C" void harness(void) {
   }
 #else
   // tree: node codes from the cube: [0] number of nodes (<= 4); node i: parent [1+2i] (0 = root), kind/name [2+2i] = isdir*4 + name index (names: "a", "b", "c c")
-  static const char *names[3] = {"a", "b", "c c"};
+  static const char *names[3] = {"a", ".b", "c c"};   // a plain name, a hidden (dot) name, a name with a space
   int nn = __vf_cube(0); unsigned id[5] = {0, 0, 0, 0, 0}; int parent[5], kind[5], nm[5]; unsigned fsize[5];
   for (int i = 1; i <= 4; i++) if (i <= nn) {
     parent[i] = __vf_cube(2 * i - 1); int kn = __vf_cube(2 * i); kind[i] = kn / 4; nm[i] = kn % 4;
@@ -55,7 +55,7 @@ extern "C" void harness(void) {
     if (!kind[i]) { fsize[i] = __vf_nondet_uchar() % 5; for (unsigned b = 0; b < 4; b++) if (b < fsize[i]) vf_fs_set(id[i], b, __vf_nondet_uchar()); }
   }
   // absolute path of node i
-  auto path_of = [&](int i) { std::string s; int chain[3], c = 0; for (int q = i; q != 0 && c < 3; q = parent[q]) chain[c++] = q; for (int k = c - 1; k >= 0; k--) { s += "/"; s += names[nm[chain[k]]]; } if (i == 0) s = "/"; return s; };
+  auto path_of = [&](int i) { std::string s(vf_fs_root());   /* "" in the model (absolute paths from "/"), the temporary directory in the native replay */ int chain[3], c = 0; for (int q = i; q != 0 && c < 3; q = parent[q]) chain[c++] = q; for (int k = c - 1; k >= 0; k--) { s += "/"; s += names[nm[chain[k]]]; } if (i == 0 && s.empty()) s = "/"; return s; };
   auto subtree_size = [&](int i) { size_t t = 0; for (int q = 1; q <= 4; q++) if (q <= nn && !kind[q]) { for (int a = q; a != 0; a = parent[a]) if (a == i) t += fsize[q]; if (i == 0) t += fsize[q]; } return t; };
   for (int i = 0; i <= 4; i++) if (i <= nn) {
     Path p(path_of(i)); bool dir = (i == 0) || kind[i];
@@ -69,7 +69,7 @@ extern "C" void harness(void) {
       for (int q = 1; q <= 4; q++) if (q <= nn && parent[q] == i) __vf_check(cnt[q] == 1, "listChildren() returns every entry exactly once");
     }
   }
-  { Path missing("/zz"); __vf_check(!missing.exists() && !missing.isFile() && !missing.isDirectory(), "a missing path does not exist"); }
+  { Path missing(std::string(vf_fs_root()) + "/zz"); __vf_check(!missing.exists() && !missing.isFile() && !missing.isDirectory(), "a missing path does not exist"); }
   // DirectoryVisitor restores the previous working directory
   for (int i = 1; i <= 4; i++) if (i <= nn && kind[i]) { unsigned before = vf_fs_cwd(); { DirectoryVisitor v(Path(path_of(i))); __vf_check(vf_fs_cwd() == id[i], "DirectoryVisitor enters the directory"); } __vf_check(vf_fs_cwd() == before, "DirectoryVisitor restores the previous working directory"); }
   __vf_check(vf_fs_open_handles() == 0, "every stream and directory handle is closed again");
